@@ -1029,7 +1029,13 @@ class TeX(object):
         self.cast()
 
         """
-        return type(self.normalize(tokens))
+        result = self.normalize(tokens)
+        if getattr(result, 'nodeType', None) in (Macro.ELEMENT_NODE,
+                                                 Macro.DOCUMENT_FRAGMENT_NODE):
+            # nested groups (or macros) leave a node: use its text, not
+            # the repr of the node object
+            result = result.textContent.strip()
+        return type(result)
 
     def castLabel(self, tokens, **kwargs):
         """
